@@ -15,7 +15,7 @@ pub fn run(ctx: &mut Ctx) {
     ctx.run_cases(n, |ctx, idx, rng| {
         let (desc, tree) = if rng.chance(0.35) {
             // adversarial shapes: deep chains, wide infosets, rare chance, dominated actions
-            let w = *rng.pick(&[5usize, 6, 7, 8, 10, 12, 13, 3, 4]);
+            let w = *rng.pick(&[5usize, 6, 7, 8, 10, 12, 13, 3, 4, 14, 15, 16, 16]);
             gen::structured(rng, w)
         } else {
             let size = *rng.pick(&[0usize, 1, 1, 2]);
@@ -85,7 +85,7 @@ pub fn run(ctx: &mut Ctx) {
         }
     });
     ctx.finish(crate::report::extra(
-        "cases = solve(Full, T, 0, k, preset) calls: adversarial G2 shapes (centipede chains to depth 300, degenerate chains, one infoset over 64 nodes, 1e-6/1e-9 chance outcomes, Kuhn, Leduc-like, wide matrices) and G1 trees x presets {vanilla,lcfr,cfr_plus,dcfr,dcfr_prune} x T in {1,3,10,30,100,300,1000,3000} x k in {1,4,16}; every fifth case on a game of <= 60 nodes runs T in {1e4,3e4,1e5} with one thread, where the envelope is tight enough to expose regret that stops improving. D (payoff range), N (multi-action infosets of both players) and A (max actions) are computed from the harness tree. Required: vanilla per-player bound <= 2*D*N*sqrt(A)/sqrt(T); for every preset O1 true regret <= 6*D*N*(sqrt(A)+1/sqrt(T))/sqrt(T). The unbounded clause 'regret tends to zero' is restated as these finite-T envelopes (a finite run cannot decide an eventuality). distinct = hash(tree, configuration); non-trivial = game has a decision infoset and a non-zero payoff range.",
+        "cases = solve(Full, T, 0, k, preset) calls: adversarial G2 shapes (centipede chains to depth 300, degenerate chains, one infoset over 64 nodes, 1e-6/1e-9 chance outcomes, Kuhn, Leduc-like, wide matrices, who-moves-first, hidden irrelevant moves, an irrelevant decision below a relevant one) and G1 trees x presets {vanilla,lcfr,cfr_plus,dcfr,dcfr_prune} x T in {1,3,10,30,100,300,1000,3000} x k in {1,4,16}; every fifth case on a game of <= 60 nodes runs T in {1e4,3e4,1e5} with one thread, where the envelope is tight enough to expose regret that stops improving. D (payoff range), N (multi-action infosets of both players) and A (max actions) are computed from the harness tree. Required: vanilla per-player bound <= 2*D*N*sqrt(A)/sqrt(T); for every preset O1 true regret <= 6*D*N*(sqrt(A)+1/sqrt(T))/sqrt(T). The unbounded clause 'regret tends to zero' is restated as these finite-T envelopes (a finite run cannot decide an eventuality). distinct = hash(tree, configuration); non-trivial = game has a decision infoset and a non-zero payoff range.",
         &["O1 as in C01", "deterministic method, so no statistics are involved"],
     ));
 }
